@@ -17,6 +17,7 @@ from vf.models import c03_ref as R
 ID = "C03"
 FLAVOUR = "san"
 LEVEL = "exploration"
+THOROUGH_MULT = 2.5       # deepens the sampled strata of the thorough tier (measured: about ten minutes on 16 cores)
 RULE = (
     "seeded generator, one stratum per mechanism: letter_grid = for every alphabet size 1..94 a random "
     "subset/order of the 94 printable letters and ALL 256 byte values as bytes/S1-array/str/list input and all "
